@@ -3,6 +3,10 @@
 import json
 props=[json.loads(l) for l in open('/verif/properties.jsonl')]
 claimed={
+ "C06": dict(level="model_checking",
+   text="Bounded symbolic execution of the encoders: (a) no duplicate member names / valid JSON for values decoded from symbolic documents (all keyword combinations per path) and for builder-API sequences with symbolic keys; (b) determinism and documented ordering of schema properties with every map iteration order a symbolic permutation explored independently for two encodings, x-order kinds and values symbolic; (c) escaping of $ref text with unconstrained bytes. The x-order tie nondeterminism found this way was repaired in /repo (fix: 398d85a), raw property names likewise (58ad248).",
+   note="Trusted: SSA executor, z3, M-json, M-swag.ConcatJSON; encoding/json sorts map keys (model rule). Bounds: 2 properties, x-order in {0,1,2}, names of one symbolic byte, $ref <= 3/4 bytes.",
+   design="4 C06", technique="bounded symbolic execution of go/ssa with symbolic map-iteration permutations + SMT (z3), counterexample replay"),
  "C01": dict(level="model_checking",
    text="Per object kind, the real UnmarshalJSON/MarshalJSON code is executed symbolically on a normal-form document in which the presence of every keyword of the shipped meta-schemas is a solver variable, so one path decides all keyword combinations; member-wise JSON equality of input and output is a set of z3 obligations. Names of extensions, unknown keywords and properties are symbolic bytes. Genuine losses are fixed in /repo (raw property names, header extensions) or listed as known findings ($schema '#', xml/externalDocs extensions).",
    note="Trusted: SSA executor, z3, M-json contract model of encoding/json (field tables regenerated from the current source), M-swag.ConcatJSON. Bounds: depth 1 with minimal children, names of 1/2 symbolic bytes, 1/2 extensions and unknown keywords, one-at-a-time variation of shapes.",
